@@ -72,7 +72,10 @@ def bases():
     c3 = [{"list_name": x, "name": f"{x.lower()}{i}", **L(f"{x}{i}")} for x in ("L", "M") for i in (1, 2, 3)]
     base3 = {"sheets": [_sheet("survey", h3, b3s), _sheet("choices", ["list_name", "name", f"label::{EN}", f"label::{FR}"], c3),
                         _sheet("settings", ["form_title", "form_id", "default_language"], [{"form_title": "Base Three", "form_id": "base_three", "default_language": EN}])]}
-    return [base1, base2, base3]
+    # base 4: the survey is the only sheet (the single-sheet fallback of the Excel readers must not be disturbed by an added _sheet)
+    b4s = [{"type": "text", "name": "u1", "label": "U1"}, {"type": "integer", "name": "u2", "label": "U2", "relevant": "${u1} != ''"}, {"type": "note", "name": "u3", "label": "U3 ${u2}"}]
+    base4 = {"sheets": [_sheet("survey", ["type", "name", "label", "relevant"], b4s)]}
+    return [base1, base2, base3, base4]
 
 
 ALIAS = {
